@@ -185,6 +185,42 @@ def check_form(ctx, year, cat, fname, form):
                 ctx.violation(f'{key0}:{stem}:not-exclusive', f'{year} {fname}: for {lname}={v!r} the boxes {on} are all on', dict(case0, target=stem, line=lname, value=repr(v)))
 
 
+def check_status_groups(ctx, year, cat, fname, form):
+    """boxes whose names differ only in a trailing number (NC: y_d400wf_fstat1..5) and that are driven by
+    different boolean lines: for every filing status at most one of them is on"""
+    from checks import c08
+    from hx import scenario
+    groups = {}
+    for m in form.pdf_fields():
+        if isinstance(m, hpf.ButtonPDFField) and '.' not in m.field_name:
+            mm = re.match(r'^(.*?[A-Za-z_])(\d+)$', m.pdf_field_name)
+            if mm:
+                groups.setdefault(mm.group(1), []).append(m)
+    for stem, members in groups.items():
+        lines = {m.field_name for m in members}
+        if len(members) < 3 or len(lines) < len(members):
+            continue
+        for status in scenario.STATUSES:
+            on = []
+            ok = True
+            for m in members:
+                kind, val = c08.evaluate(year, f'{fname}.{m.field_name}', {'i:1040.filing_status': {'enum': scenario.status_name(year, status)}}, None)
+                if kind != 'value':
+                    ok = False
+                    break
+                line = cat.lines[f'{fname}.{m.field_name}']
+                if m.value(val, line) != 'Off':
+                    on.append(m.pdf_field_name)
+            if not ok:
+                break
+            ctx.case()
+            ctx.count('status-group-checks')
+            ctx.nt(f'{year}|{fname}|{stem}|{status}')
+            if len(on) != 1:
+                ctx.violation(f'{year}:{fname.split(":")[0]}:{stem}:status-group', f'{year} {fname}: for filing status {status} the boxes {stem}N that are on: {on} (expected exactly one)',
+                              {'year': year, 'form': fname, 'target': stem})
+
+
 def run(ctx):
     for year in catalog.YEARS:
         cat = catalog.get(year)
@@ -192,6 +228,7 @@ def run(ctx):
             if ':' in fname and fname.split(':')[1] not in ('0', 'you', 'spouse'):
                 continue
             check_form(ctx, year, cat, fname, form)
+            check_status_groups(ctx, year, cat, fname, form)
     ctx.exhaustive = True
     p = catalog.get(2023).forms['1040'].pdf_file()
     xf = pdf.xfa_fields(p)
@@ -203,3 +240,4 @@ def run(ctx):
 def replay(ctx, case):
     cat = catalog.get(case['year'])
     check_form(ctx, case['year'], cat, case['form'], cat.forms[case['form']])
+    check_status_groups(ctx, case['year'], cat, case['form'], cat.forms[case['form']])
